@@ -252,15 +252,28 @@ void harness(void)
 #define NOPT 2
 #endif
 struct hav { u8 ok, mode, ctype, htype, noecho, has_fp, has_out, has_key; u64 size; };
-struct in_t { u8 nopts; u8 c[NOPT + 1]; struct hav h[NOPT + 1]; u8 fopen_ok; } IN;
+struct in_t { u8 nopts; u8 c[NOPT + 1]; struct hav h[NOPT + 1]; u8 fopen_ok; u8 nopts0, rej0; struct hav h0; } IN;
 static u8 *PRE_IN, *PRE_OUT, *PRE_KEY;
 static u32 g_pos, parse_calls, any_reject;
+/* TAIL_HISTORY (C15: CLI globals): an EARLIER command line is parsed in the same process image first - IN.nopts0 (<= 3) options, every one
+   leaving the arbitrary Inv state IN.h0, the last one rejected inside the loop iff IN.rej0 - and then the command line under test. The
+   parse under test must start scanning at argv[1] (optind rewound whatever exit path the earlier parse took); everything H_TAIL checks
+   about it must hold unchanged. */
+static u32 phase;
 #if MODEL
 static int fopen_outcome(u8 *name, int wr) { (void)name; CHECK(wr, "get_v_opt itself opens only the default output file"); return IN.fopen_ok != 0; }
 static int64_t strtol_value(u8 *s) { (void)s; CHECK(0, "no number parsing outside parseOpts"); return 0; }
 u32 X_getopt_long(u32 argc, u8 *argv, u8 *so, u8 *lo, u8 *idx)
 {
   (void)argc; (void)argv; (void)so; (void)lo; (void)idx;
+#ifdef TAIL_HISTORY
+  if (phase == 0) {
+    if (g_pos >= IN.nopts0 || g_pos >= 3) return 0xffffffffu;
+    g_pos++; X_G_optind++;
+    return (u32)'n';
+  }
+  if (g_pos == 0) CHECK(X_G_optind == 1 || X_G_optind == 0, "every parse starts scanning at argv[1], whatever command line was parsed earlier in this process and however that parse ended (optind rewound)");
+#endif
   if (g_pos >= IN.nopts || g_pos >= NOPT) return 0xffffffffu;
   u8 k = IN.c[g_pos++];
   X_G_optind++;
@@ -271,6 +284,14 @@ u8 stub_parseopts(u8 c, u8 *res)
 {
   (void)c;
   u32 k = parse_calls++;
+#ifdef TAIL_HISTORY
+  if (phase == 0) {
+    struct hav *h = &IN.h0;
+    vf_pak_set(res, h->has_fp ? PRE_IN : 0, h->has_out ? PRE_OUT : 0, h->has_key ? PRE_KEY : 0, h->size, (u32)(int)(signed char)h->mode, (u32)(int)(signed char)h->ctype, (u32)(int)(signed char)h->htype, h->noecho != 0);
+    if (IN.rej0 && k + 1 == IN.nopts0) { diag++; return 0; }
+    return 1;
+  }
+#endif
   if (k == 0) {
     CHECK(inv_ok((int)(signed char)vf_pak_mode(res), (int)(signed char)vf_pak_ctype(res), (int)(signed char)vf_pak_htype(res)) && (int)(signed char)vf_pak_mode(res) == 'u'
           && vf_pak_fp(res) == 0 && vf_pak_out(res) == 0 && vf_pak_key(res) == 0 && vf_pak_noecho(res) == 0, "the initial state satisfies Inv (mode unset, numbers unset, no files, no key)");
@@ -287,6 +308,14 @@ void harness(void)
   LOAD_INPUTS();
   ASSUME(IN.nopts <= NOPT);
   for (u32 k = 0; k < NOPT; k++) { ASSUME(inv_ok((int)(signed char)IN.h[k].mode, (int)(signed char)IN.h[k].ctype, (int)(signed char)IN.h[k].htype)); ASSUME(IN.c[k] != 0xff); }
+#ifdef TAIL_HISTORY
+  ASSUME(IN.nopts0 <= 3 && IN.rej0 <= 1 && (!IN.rej0 || IN.nopts0 >= 1));
+  ASSUME(inv_ok((int)(signed char)IN.h0.mode, (int)(signed char)IN.h0.ctype, (int)(signed char)IN.h0.htype));
+  /* the command line under test is a complete -e one (what the scan-start CHECK needs does not depend on it; a complete one makes a stale
+     cursor observable in the native replay, where real getopt_long then skips options) */
+  ASSUME(IN.nopts == NOPT && NOPT >= 1 && (signed char)IN.h[NOPT - 1].mode == 'e' && IN.h[NOPT - 1].has_fp && IN.h[NOPT - 1].has_out);
+  for (u32 k = 0; k < NOPT; k++) ASSUME(IN.h[k].ok);
+#endif
   global_ctors();
   u8 inbytes[8] = {1, 2, 3, 4, 5, 6, 7, 8};
   /* final state = the last havoc (initial state if there was no option) */
@@ -299,6 +328,13 @@ void harness(void)
   PRE_IN = envf_open_in(inbytes, 8); PRE_OUT = envf_open_out(8); PRE_KEY = env_alloc(16); memset(PRE_KEY, 7, 16);
   F_IN = envf_open_in(inbytes, 8); F_OUT = envf_open_out(64);
   u8 *argv[2] = {(u8 *)"Wencry", 0};
+#ifdef TAIL_HISTORY
+  phase = 0;
+  (void)vf_get_v_opt(2, (u8 *)argv);
+  DIAG_END();
+  phase = 1; g_pos = 0; parse_calls = 0; any_reject = 0; fopen_calls = 0; diag0 = diag;
+  F_OUT = envf_open_out(64);
+#endif
   u8 *ret = vf_get_v_opt(2, (u8 *)argv);
   DIAG_END();
 #else
@@ -317,6 +353,19 @@ void harness(void)
   if (any_rej) { argv[argc++] = "-k"; argv[argc++] = "bad"; }
   if (argc == 1) argv[argc++] = "stray";
   argv[argc] = 0;
+#ifdef TAIL_HISTORY
+  { /* the earlier command line: IN.nopts0 options, the last one a malformed key iff IN.rej0 (rejected inside the option loop) */
+    char *argv0[12]; int argc0 = 0;
+    argv0[argc0++] = "Wencry";
+    for (u32 k = 0; k + (IN.rej0 ? 1 : 0) < IN.nopts0 && k < 3; k++) argv0[argc0++] = "-n";
+    if (IN.rej0) { argv0[argc0++] = "-k"; argv0[argc0++] = "bad"; }
+    argv0[argc0] = 0;
+    DIAG_BEGIN();
+    (void)vf_get_v_opt((u32)argc0, (u8 *)argv0);
+    DIAG_END();
+    diag0 = diag;
+  }
+#endif
   if (!IN.fopen_ok) mkdir("in.bin.wenc", 0700);
   DIAG_BEGIN();
   u8 *ret = vf_get_v_opt((u32)argc, (u8 *)argv);
